@@ -14,7 +14,9 @@ def make_cases(tier, rng):
         vs = rng.sample([0, 1, 2, 3, 7], rng.randint(1, 4))
         # the config's history: used for an earlier launch already / a TLSConfig supplied by the caller
         cfg = dict(cfg, relaunch=rng.random() < 0.4, presettls=rng.random() < 0.3)
-        cases.append({"name": "e%d" % len(cases), "cfg": cfg, "host": host, "versions": vs, "legacy": rng.random() < 0.4})
+        # the configured port range: both ends, only one of them (the other zero), or none (documented defaults)
+        ports = rng.choice([[11111, 22222], [11111, 22222], [0, 9000], [5000, 0], [0, 0]])
+        cases.append({"name": "e%d" % len(cases), "cfg": cfg, "host": host, "versions": vs, "legacy": rng.random() < 0.4, "ports": ports})
     all_on = {v: True for v in VARS}
     all_off = {v: False for v in VARS}
     for cfg in cfgs:
